@@ -191,6 +191,7 @@ impl SchedKind {
 fn shuttle_config() -> shuttle::Config {
     let mut c = shuttle::Config::new();
     c.stack_size = 0x80000;
+    c.max_steps = shuttle::MaxSteps::None; // soak runs take millions of steps; hangs are the watchdog's job
     c.failure_persistence = shuttle::FailurePersistence::None;
     c.silence_warnings = true;
     c
@@ -297,9 +298,14 @@ impl Sink {
                 let ac = AbstractCall::of(&w, &e.call);
                 let origin = self.cur_origin.clone();
                 let n = w.threads.len();
+                let small = w.ncalls() <= 64;
                 if let Err(m) = self.oracle.observe(ac, &e.outcome, || {
                     let mut c = coord_json(&origin, e, n);
-                    c["workload"] = w.to_json();
+                    if small {
+                        // explicit replay needs the workload; soak workloads (10^4..10^6 calls) are
+                        // replayed from their seed instead
+                        c["workload"] = w.to_json();
+                    }
                     c
                 }) {
                     let mut second = m.second_coord.clone();
@@ -565,6 +571,49 @@ fn cold_into(sink: &Arc<Mutex<Sink>>, seed: u64, index: u64, tier: &str) -> Opti
     harness_err
 }
 
+/// Long histories: probe set, k calls of ordinary traffic, probe set again — one fresh process.
+fn soak_params(seed: u64, index: u64, tier: &str) -> (usize, usize, bool, Rng) {
+    let mut rng = Rng::derive(seed, index, 1717);
+    let ks: &[usize] = if tier == "thorough" { &[2_000, 20_000, 70_000, 300_000, 1_100_000] } else { &[1_000, 5_000, 20_000, 70_000] };
+    let k = ks[(index as usize) % ks.len()];
+    let traffic = ((index as usize) / ks.len()) % SOAK_TRAFFIC.len();
+    let two = rng.chance(1, 3);
+    (k, traffic, two, rng)
+}
+
+fn soak_into(sink: &Arc<Mutex<Sink>>, seed: u64, index: u64, tier: &str) -> Option<String> {
+    let (k, traffic, two, mut rng) = soak_params(seed, index, tier);
+    let w = gen_soak_workload(&mut rng, k, traffic, two);
+    let origin = format!("seed={} soak={} k={} traffic={} threads={}", seed, index, k, SOAK_TRAFFIC[traffic], if two { 2 } else { 1 });
+    {
+        let mut s = sink.lock().unwrap();
+        *s.stats.by_sched.entry(format!("soak_{}", SOAK_TRAFFIC[traffic])).or_insert(0) += 1;
+        *s.stats.by_threads.entry(w.threads.len()).or_insert(0) += 1;
+    }
+    match run_workload(sink, Arc::new(w), &origin, SchedKind::Random.make(rng.next_u64(), 1)) {
+        Ok(()) => None,
+        Err(m) if m.contains("deadlock") => {
+            sink.lock().unwrap().violation = Some(json!({"kind": "deadlock", "message": m, "second": {"coordinates": {"origin": origin}}}));
+            None
+        }
+        Err(m) => Some(m),
+    }
+}
+
+fn soak(seed: u64, index: u64, tier: &str) -> (Value, i32) {
+    init_shuttle_hook();
+    let sink = new_sink();
+    let harness_err = soak_into(&sink, seed, index, tier);
+    let (mut v, code) = cold_report(&sink, seed, index, tier, harness_err);
+    let calls = v["calls"].clone();
+    v["cold_executions"] = json!(0);
+    v["soak_executions"] = json!(1);
+    v["soak_calls"] = calls;
+    v["soak_index"] = json!(index);
+    v.as_object_mut().unwrap().remove("cold_index");
+    (v, code)
+}
+
 fn cold_report(sink: &Arc<Mutex<Sink>>, seed: u64, index: u64, tier: &str, harness_err: Option<String>) -> (Value, i32) {
     let s = sink.lock().unwrap();
     let rec = s.rec.lock().unwrap();
@@ -630,6 +679,12 @@ fn run_history(items: &[Value], strict: bool, search: usize) -> Result<Option<Va
                 if sink.lock().unwrap().violation.is_some() {
                     break;
                 }
+            }
+        } else if let Some(si) = it.get("soak_index").and_then(|x| x.as_u64()) {
+            let seed = it.get("seed").and_then(|x| x.as_u64()).ok_or("bad soak item")?;
+            let tier = it.get("tier").and_then(|x| x.as_str()).unwrap_or("quick").to_string();
+            if let Some(m) = soak_into(&sink, seed, si, &tier) {
+                return Err(m);
             }
         } else if let Some(ci) = it.get("cold_index").and_then(|x| x.as_u64()) {
             let seed = it.get("seed").and_then(|x| x.as_u64()).ok_or("bad cold item")?;
@@ -1032,10 +1087,35 @@ fn cmd_driver(args: &[String]) -> i32 {
             }
         }
     }
+    let nsoak: u64 = arg_val(args, "--soak").and_then(|x| x.parse().ok()).unwrap_or(if tier == "thorough" { 480 } else { 48 });
+    let bad_so_far = results.iter().any(|(_, (c, _))| *c != 0);
+    if !bad_so_far && nsoak > 0 {
+        let (exe, tier) = (exe.clone(), tier.clone());
+        let mk = move |n: u64, of: &Path| {
+            let mut c = std::process::Command::new(&exe);
+            c.args(["soak", "--seed", &seed.to_string(), "--index", &n.to_string(), "--tier", &tier, "--out"]).arg(of);
+            c
+        };
+        match simcore::pool::run_chunks(nsoak, jobs, &scratch, std::time::Duration::from_secs(timeout_s * 4), &mk) {
+            Ok(r) => {
+                for (n, cr) in r {
+                    if cr.code == -9 {
+                        inconclusive.push(nchunks + ncold + n);
+                    } else {
+                        results.insert(nchunks + ncold + n, (cr.code, cr.value));
+                    }
+                }
+            }
+            Err(e) => {
+                eprintln!("HARNESS: {}", e);
+                return 2;
+            }
+        }
+    }
     let first_bad: Option<u64> = results.iter().find(|(_, (c, _))| *c != 0).map(|(n, _)| *n);
     // ---- merge (deterministic: by chunk index; chunks after the first bad one are ignored)
     let mut tot: BTreeMap<&str, u64> = BTreeMap::new();
-    let keys = ["cold_executions", "runs", "executions", "checked_executions", "sched_steps", "context_switches", "calls", "panicked_calls", "overlapping_pairs", "late_spawns", "early_exits", "multi_thread_execs", "distinct_all_count", "abstract_calls", "abstract_calls_seen_2plus", "abstract_calls_seen_10plus"];
+    let keys = ["soak_executions", "soak_calls", "cold_executions", "runs", "executions", "checked_executions", "sched_steps", "context_switches", "calls", "panicked_calls", "overlapping_pairs", "late_spawns", "early_exits", "multi_thread_execs", "distinct_all_count", "abstract_calls", "abstract_calls_seen_2plus", "abstract_calls_seen_10plus"];
     let mut first_use = [0u64; 4];
     let mut by_sched: BTreeMap<String, u64> = BTreeMap::new();
     let mut by_threads: BTreeMap<String, u64> = BTreeMap::new();
@@ -1093,7 +1173,7 @@ fn cmd_driver(args: &[String]) -> i32 {
         if *code == 1 && violation.is_none() {
             if let Some(vi) = v.get("violation") {
                 if !vi.is_null() {
-                    violation = Some((*n, json!({"violation": vi, "failing_run": v.get("failing_run"), "chunk_from": v.get("from"), "chunk_to": v.get("to"), "cold_index": v.get("cold_index")})));
+                    violation = Some((*n, json!({"violation": vi, "failing_run": v.get("failing_run"), "chunk_from": v.get("from"), "chunk_to": v.get("to"), "cold_index": v.get("cold_index"), "soak_index": v.get("soak_index")})));
                 }
             }
         }
@@ -1175,6 +1255,10 @@ fn cmd_driver(args: &[String]) -> i32 {
                 }
             }
         }
+        if !written && v["soak_index"].is_u64() {
+            let _ = write_json(&rpath, &header(vec![json!({"seed": seed, "soak_index": v["soak_index"], "tier": tier})], "seeded_soak_execution"));
+            written = true;
+        }
         if !written && v["cold_index"].is_u64() {
             let _ = write_json(&rpath, &header(vec![json!({"seed": seed, "cold_index": v["cold_index"], "tier": tier})], "seeded_cold_execution"));
             written = true;
@@ -1215,6 +1299,19 @@ fn main() {
             let index = arg_val(&args, "--index").and_then(|x| x.parse().ok()).unwrap_or(0);
             let tier = arg_val(&args, "--tier").unwrap_or_else(|| "quick".into());
             let (v, code) = cold(seed, index, &tier);
+            match arg_val(&args, "--out") {
+                Some(p) => {
+                    let _ = write_json(Path::new(&p), &v);
+                }
+                None => println!("{}", serde_json::to_string(&v).unwrap()),
+            }
+            code
+        }
+        "soak" => {
+            let seed = arg_val(&args, "--seed").and_then(|x| x.parse().ok()).unwrap_or_else(simcore::verif_seed);
+            let index = arg_val(&args, "--index").and_then(|x| x.parse().ok()).unwrap_or(0);
+            let tier = arg_val(&args, "--tier").unwrap_or_else(|| "quick".into());
+            let (v, code) = soak(seed, index, &tier);
             match arg_val(&args, "--out") {
                 Some(p) => {
                     let _ = write_json(Path::new(&p), &v);
